@@ -320,6 +320,8 @@ pub struct World {
     pub accept_log: Vec<(usize, u64)>,
     /// simulated peer address of every accepted connection, in order
     pub accept_peers: Vec<SocketAddr>,
+    /// see `drain_after_exit`
+    pub post_exit_drain_ns: u64,
     /// consecutive would-block writes by sozu since its last epoll_wait (busy-loop damping)
     eagain_streak: u32,
     pub spin_breaks: u64,
@@ -367,6 +369,7 @@ impl World {
             pending_burst: None,
             accept_log: Vec::new(),
             accept_peers: Vec::new(),
+            post_exit_drain_ns: 0,
             eagain_streak: 0,
             spin_breaks: 0,
         })
@@ -493,6 +496,26 @@ impl World {
             Step::Done => { st.runnable = false; st.done = true; st.wake_at = None; }
         }
         self.actors[id] = Some(a);
+    }
+
+    /// After the worker has returned (its sockets are closed): let the peers read what is still in their
+    /// socket buffers and observe the close, for at most `max_ns` of virtual time. Opt-in per scenario
+    /// (`post_exit_drain_ns`), so that scenarios that end with HardStop keep their traces.
+    pub fn drain_after_exit(&mut self, max_ns: u64) {
+        let until = self.now + max_ns;
+        let mut steps = 0u32;
+        // the worker's last writes and its closes happened since the actors last looked
+        for a in self.astate.iter_mut() { if !a.done && !(a.hard_sleep && a.wake_at.is_some()) { a.runnable = true; } }
+        loop {
+            let ran = self.run_actors(64);
+            steps += ran;
+            if steps > 200_000 { break; }
+            if ran > 0 { continue; }
+            match self.astate.iter().filter(|a| !a.done).filter_map(|a| a.wake_at).min() {
+                Some(t) if t <= until => { if t > self.now { self.now = t; } self.fire_due(); }
+                _ => break,
+            }
+        }
     }
 
     /// Run up to `k` actor steps. Returns number executed.
